@@ -136,7 +136,7 @@ def parse_diagnostics(stderr_text, manifest, unit_lines, safety_clause):
                 if mm and po0.startswith("repo:"):
                     rec["extra_item"] = "%s::%s" % (po0.split(":")[1], mm.group(1))
                 # an unknown free function called from extracted code: a helper the changed code introduced
-                mf = re.match(r"cannot find function `([a-z_][a-z0-9_]*)` in this scope", msg)
+                mf = re.match(r"cannot find (?:function|value) `([a-z_][a-z0-9_]*)` in this scope", msg)
                 if mf and po0.startswith("repo:"):
                     rec["extra_fn"] = "%s::%s" % (po0.split(":")[1], mf.group(1))
                 # a compile error inside spliced hint text (e.g. the hint names a local that the changed
